@@ -343,7 +343,7 @@ def native_q_replay(eps, use_key, use_mask, q_terms, mask_terms):
                 with extract.patched(*([(jr, "uniform", lambda key, shape=(), dtype=float, minval=0.0, maxval=1.0, uu=u, **kw: jnp.asarray(uu, f32))] if u is not None else [])):
                     _, a = pol(None, obs, action_mask=mask, key=jax.random.key(3) if use_key else None)
                 a = int(a)
-                ok = 0 <= a < n and mv[a] and (u == 0.0 or qv[a] >= best)
+                ok = 0 <= a < n and mv[a] and ((u is not None and u < eps) or qv[a] >= best)   # exploring (u < epsilon): any allowed action; otherwise greedy
                 if not ok:
                     return dict(reproduced=True, route="R1 (real AbstractQPolicy.__call__ on a table Q policy" + ("" if u is None else f"; jax.random.uniform forced to {u}") + ")",
                                 inputs=dict(q_values=qv, action_mask=mv if use_mask else None, epsilon=eps, key=use_key), observed=dict(action=a, allowed=bool(0 <= a < n and mv[a]), best_allowed_q=best))
@@ -359,7 +359,7 @@ def unit_q_policy(S):
     n = 3
     OBS = Box(-jnp.ones((2,)), jnp.ones((2,)))
     for cfg, eps, use_key, use_mask in (("no-key", 0.1, False, True), ("epsilon-zero", 0.0, True, True), ("epsilon-greedy", 0.1, True, True), ("no-key/no-mask", 0.1, False, False),
-                                        ("epsilon-greedy/no-mask", 0.3, True, False)):
+                                        ("epsilon-greedy/no-mask", 0.3, True, False), ("epsilon-one", 1.0, True, True), ("epsilon-above-one", 1.5, True, True)):
         ctx = Ctx()
         pol0 = GenericQPolicy(Discrete(n), OBS, epsilon=eps)
         pol = sym(ctx, "q", pol0)
@@ -385,7 +385,18 @@ def unit_q_policy(S):
         fin = [z3.And(q.at((j,)) > -ir.INF, q.at((j,)) < ir.INF) for j in range(n)] + ([z3.Or(*[allowed(j) for j in range(n)])] if use_mask else [])
         rp = native_q_replay(eps, use_key, use_mask, [q.at((j,)) for j in range(n)], [m.at((j,)) for j in range(n)] if use_mask else [])
         greedy_ok = lambda t: z3.Or(*[z3.And(t == j, allowed(j), *[z3.Implies(allowed(i), q.at((j,)) >= q.at((i,))) for i in range(n)]) for j in range(n)])
-        if cfg.startswith("no-key") or cfg.startswith("epsilon-zero"):
+        if eps >= 1.0:
+            # pure exploration: whatever shortcut the code takes, the action is a draw from the MASKED law (never a masked action)
+            cs = [c_ for c_ in ctx.calls if c_.name.startswith("dx.Categorical") and c_.name.endswith(".sample")]
+            us = [c_ for c_ in ctx.calls if c_.name == "uniform"]
+            S.fact(f"{cfg}/one-exploratory-sample", len(cs) == 1, function=fn, replay=rp, what="with epsilon >= 1 the action comes from one exploratory sample", detail=[c_.name for c_ in ctx.calls][:8])
+            if len(cs) == 1:
+                lg, expl = cs[0].operands[0], cs[0].outputs[0].scalar()
+                epsf = ir.const_float(np.float32(eps))
+                hy_u = [z3.And(u_.outputs[0].scalar() >= 0, u_.outputs[0].scalar() < 1) for u_ in us]    # A-RNG: uniform draws lie in [0, 1)
+                S.prove(f"{cfg}/action-is-a-draw-from-the-masked-law", ctx, sand(a == expl, *[z3.Implies(z3.Not(m.at((j,))), lg.at((j,)) <= -ir.INF) for j in range(n)]), hyps=fin + hy_u, function=fn, replay=rp,
+                        nl_budget_ms=4000, what="the returned action is the exploratory sample, drawn from logits that are -inf on masked actions")
+        elif cfg.startswith("no-key") or cfg.startswith("epsilon-zero"):
             S.prove(f"{cfg}/greedy-and-allowed", ctx, greedy_ok(a), hyps=fin + mode_ax, function=fn, replay=rp,
                     what="deterministic mode: the action is an allowed action with the highest Q-value among the allowed ones (never a masked action)")
         else:
